@@ -102,6 +102,32 @@ fn in_domain(op: &str, ty: &str) -> bool {
     }
 }
 
+/// literal patterns: (kind, spelling)
+const LITPATS: [(&str, &str); 4] = [("int", "0"), ("bool", "true"), ("string", "\"s\""), ("unit", "()")];
+/// element types a literal pattern is matched against: (tag, annotation, value, literal kind it admits)
+const LITTYPES: [(&str, &str, &str, &str); 10] = [
+    ("int32", "int32", "5", "int"),
+    ("int64", "int64", "5i64", "int"),
+    ("uint8", "uint8", "5u8", "int"),
+    ("float64", "float64", "1.5", "-"),
+    ("float32", "float32", "1.5f32", "-"),
+    ("bool", "bool", "false", "bool"),
+    ("string", "string", "\"t\"", "string"),
+    ("unit", "unit", "()", "unit"),
+    ("tuple", "(int32, int32)", "(1, 2)", "-"),
+    ("struct", "P", "P { a: 1 }", "-"),
+];
+/// where the pattern stands; in all but the first the scrutinee's type is still being inferred when
+/// the pattern is checked. § = literal pattern, @ = value, % = annotation
+const LITPOSITIONS: [(&str, &str); 6] = [
+    ("direct", "fn main() { let v: % = @; let r = match v { § => 1, _ => 0 }; string_println(int32_to_string(r)) }"),
+    ("under-generic-constructor", "fn main() { let o = GSom(@); let r = match o { GSom(§) => 1, GSom(x) => 2, GNon => 3 }; string_println(int32_to_string(r)) }"),
+    ("tuple-from-generic-call", "fn pairg[A, B](a: A, b: B) -> (A, B) { (a, b) }\nfn main() { let r = match pairg(@, 1) { (§, k) => k, (y, k) => 2 }; string_println(int32_to_string(r)) }"),
+    ("closure-parameter", "fn main() { let f = |x| match x { § => 1, _ => 0 }; string_println(int32_to_string(f(@))) }"),
+    ("let-bound-generic-result", "fn idg[T](x: T) -> T { x }\nfn main() { let w = idg(@); let r = match w { § => 1, _ => 0 }; string_println(int32_to_string(r)) }"),
+    ("rigid-type-parameter", "fn d[T](o: GOpt[T]) -> int32 { match o { GSom(§) => 1, _ => 0 } }\nfn main() { string_println(int32_to_string(d(GSom(@)))) }"),
+];
+
 pub struct IllTyped;
 
 impl Family for IllTyped {
@@ -112,7 +138,7 @@ impl Family for IllTyped {
         &["C03", "C04"]
     }
     fn rule(&self) -> &'static str {
-        "22 typed positions (operator operands, annotated let, parameters, conditions, return position, struct field, constructor payload, array element/index/set, ref_set, vec_push, branches, closure/method/generic arguments) x 10 expressions of different types (the well-typed one must be accepted, the other nine rejected by the typer); 18 structural errors (array length in annotation/param/return, unknown/missing/extra field, call and constructor arity, tuple projection range, pattern arity/type, calling a non-function, unknown type/variant); operator domain: 12 binary + 2 unary operators x 13 operand types, written directly and inside a generic function instantiated at the type (accepted iff inside the documented domain). non-trivial = ill-typed variants; distinct = distinct source text"
+        "22 typed positions (operator operands, annotated let, parameters, conditions, return position, struct field, constructor payload, array element/index/set, ref_set, vec_push, branches, closure/method/generic arguments) x 10 expressions of different types (the well-typed one must be accepted, the other nine rejected by the typer); 18 structural errors (array length in annotation/param/return, unknown/missing/extra field, call and constructor arity, tuple projection range, pattern arity/type, calling a non-function, unknown type/variant); literal patterns: 4 literal kinds x 10 scrutinee types x 6 positions (directly; under a generic constructor, in a tuple from a generic call, on a closure parameter, on a let-bound generic result - the scrutinee's type still being inferred; against a rigid type parameter): rejected unless the literal's kind is the type's; operator domain: 12 binary + 2 unary operators x 13 operand types, written directly and inside a generic function instantiated at the type (accepted iff inside the documented domain). non-trivial = ill-typed variants; distinct = distinct source text"
     }
     fn cases(&self, _tier: Tier) -> Box<dyn Iterator<Item = Value> + '_> {
         let mut v = Vec::new();
@@ -130,6 +156,13 @@ impl Family for IllTyped {
             }
             v.push(json!({"kind": "operator", "op": "neg", "ty": t}));
             v.push(json!({"kind": "operator", "op": "not", "ty": t}));
+        }
+        for (pos, _) in LITPOSITIONS {
+            for (lk, _) in LITPATS {
+                for (t, _, _, _) in LITTYPES {
+                    v.push(json!({"kind": "literal-pattern", "position": pos, "literal": lk, "ty": t}));
+                }
+            }
         }
         // the same table with the operator inside a generic function instantiated at the type
         for (t, _, _, _) in OPTYPES {
@@ -151,6 +184,16 @@ impl Family for IllTyped {
                 let (_, want, tmpl) = POSITIONS.iter().find(|(n, _, _)| *n == pn).unwrap();
                 let (_, ex) = EXPRS.iter().find(|(t, _)| *t == et).unwrap();
                 (format!("{}{}\n", PRELUDE, tmpl.replace('§', ex)), want == &et, format!("position={};expr={}", pn, et))
+            }
+            "literal-pattern" => {
+                let (pos, lk, ty) = (case["position"].as_str().unwrap(), case["literal"].as_str().unwrap(), case["ty"].as_str().unwrap());
+                let (_, tmpl) = LITPOSITIONS.iter().find(|(n, _)| *n == pos).unwrap();
+                let (_, lit) = LITPATS.iter().find(|(k, _)| *k == lk).unwrap();
+                let (_, ann, val, admits) = LITTYPES.iter().find(|(t, _, _, _)| *t == ty).unwrap();
+                let text = format!("{}enum GOpt[T] {{ GNon, GSom(T) }}\n{}\n", PRELUDE, tmpl.replace('§', lit).replace('@', val).replace('%', ann));
+                // a rigid type parameter admits no literal pattern at all
+                let ok = *admits == lk && pos != "rigid-type-parameter";
+                (text, ok, format!("literal-pattern={};literal={};ty={}", pos, lk, ty))
             }
             "structural" => {
                 let n = case["name"].as_str().unwrap();
